@@ -1,7 +1,7 @@
 CONSTANTS
   Threads = {"T0", "T1", "T2", "T3"}
   ArchFiles = {"A", "B"}
-  Names = {"f0", "f1", "f2", "f3", "g0", "g1", "g2", "g3", "g4", "g5", "g6", "g7", "g8", "g9", "ga", "gb"}
+  Names = {"f0", "f1", "f2", "f3", "g0", "g1", "g2", "g3", "g4", "g5", "g6", "g7", "g8", "g9", "ga", "gb", "n259", "n260", "n261", "n1024"}
   Dev = {}
 CONSTANT NextId <- TrNextId
 INIT TInit
